@@ -244,6 +244,27 @@ def parse_module(moddir, files):
                 consts.append((full, "rect", vals))
             else:
                 skipped.append((where, name, ty))
+        # Display alias: `pub type DisplayX = crate::graphics::Display<WIDTH, HEIGHT, bwr, {expr}, Colour>;`
+        for am in re.finditer(r"pub\s+type\s+(\w+)\s*=\s*crate::graphics::Display<\s*(\w+)\s*,\s*(\w+)\s*,\s*(true|false)\s*,\s*\{([^}]*)\}\s*,\s*(\w+)\s*,?\s*>\s*;", text):
+            line = text.count("\n", 0, am.start()) + 1
+            where = f"{path}:{line}"
+            aname, wname, hname, bwr, expr, col = am.groups()
+            if col not in COLOR_IDX:
+                raise GenError(f"{where}: alias {aname}: unknown colour type {col}")
+            def bl(m):
+                args = m.group(1).split(",")
+                if len(args) != 2:
+                    raise GenError(f"{where}: alias {aname}: buffer_len arity")
+                a0 = eval_expr(args[0].strip(), env, where)
+                a1 = eval_expr(args[1].strip(), env, where)
+                return str((a0 + 7) // 8 * a1)
+            expr2 = re.sub(r"buffer_len\(([^()]*)\)", bl, expr.strip())
+            consts.append(("ALIAS_NAME", "str", aname))
+            consts.append(("ALIAS_W", "nat", eval_expr(wname, env, where)))
+            consts.append(("ALIAS_H", "nat", eval_expr(hname, env, where)))
+            consts.append(("ALIAS_BWR", "bool", bwr == "true"))
+            consts.append(("ALIAS_BYTECOUNT", "nat", eval_expr(expr2, env, where)))
+            consts.append(("ALIAS_KIND", "str", col))
     return enums, consts, skipped
 
 
